@@ -26,12 +26,20 @@ META = {
                   'state_visible_run, callbacks_once_run, fails_within_timeout_run (the special case of _all); for replies of fixed length: '
                   'reply_own_ret.  Step level (any configuration): reconnect_mark_kept_partial, callbacks_after_ident_partial, ident_failed_partial, '
                   'variable_reply_partial and the *_partial guards.  Proved for all inputs: framing_chunk_independent (+_bytes, _eq_unchunked); '
-                  'polling_resumes_partial.  Every clause is judged by its Lean monitor on every run of the real StringIO/BytesIO under the '
+                  'polling_resumes_partial.  Glue models (Timed/CommGlue.lean), proved for all inputs: send_plan_intact (the sends of one '
+                  'communicate put together are the command + send terminator, any terminator), send_plan_one_line (wait_before != 0, terminator of '
+                  'one byte: every send is exactly one line), comm_plan_paced (a pause of wait_before before EVERY send of the plan), '
+                  'connect_targets_same / reconnect_same_target (every connect - first and reconnects - goes to the same port: uri, else class '
+                  'default_settings, else SECoP default; the settings are only read).  Transaction model, every accepted run: wait_before_paced_run / wait_before_paced '
+                  '(= wait_before_paced_statement, the monitor form: every send is preceded by a sleep of wait_before of its caller with no send of that caller in between).  Every clause is judged by its Lean monitor on every run of the real StringIO/BytesIO under the '
                   'deterministic scheduler (every access of a thread to shared state is a scheduling point), and every run is replayed through '
                   'the model (0 rejected events).',
-    'level_note': 'Trusted: Lean kernel + axioms propext/Classical.choice/Quot.sound; the scripted device and FakeConn (lowest AsynConn layer: '
-                  'recv/send/flush_recv) replace sockets, select and kernel buffering; three clauses are proved in the window form of their '
-                  'monitors (transaction_protected, delays_honoured, state_not_overwritten), two more have a proved monitor soundness '
+    'level_note': 'Trusted: Lean kernel + axioms propext/Classical.choice/Quot.sound; the scripted device behind fake `socket`/`select` modules '
+                  '(the REAL AsynTcp - address resolution, connect, send, recv, flush_recv, disconnect - runs in every scenario; only sockets, select and '
+                  'kernel buffering are replaced); a command that goes out as several sends (wait_before with several lines) is NOT in the transaction '
+                  'model: such runs are judged by all monitors (requests read line by line, reply windows from the first line) and compared with the '
+                  'glue model commPlan; four clauses are proved in the window form of their '
+                  'monitors (transaction_protected, delays_honoured, state_not_overwritten, wait_before_paced), two more have a proved monitor soundness '
                   '(multicomm_atomic, exchange_atomic); the other run-level theorems are stated at the events where the facts arise, their link '
                   'to the `ret`-window form of the monitors is by the model\'s `ret` guard, not a separate theorem (the `*_statement` definitions '
                   'keep the monitor forms); with an identification configured state_visible_run (closed_visible_run is the general form), '
@@ -39,8 +47,9 @@ META = {
                   'replies of variable length - covered by the monitors and the correspondence; polling_resumes is judged on the real poll '
                   'thread only.',
     'trusted': [
-        'FakeConn.recv blocks at most AsynConn.timeout (1 s) and returns one device chunk at a time; flush_recv drains what has arrived (as AsynTcp); '
-        'a connection closed on the host side by another thread makes recv/send raise (as a socket that was shut down)',
+        'the fake socket: recv blocks at most its time-out (AsynConn.timeout, 1 s) and returns one device chunk at a time, select(…, 0) tells whether a '
+        'chunk or the end of file has arrived; a socket closed on the host side by another thread makes recv return b\'\' / sendall raise (as a socket '
+        'that was shut down); a connect to an address where no scripted device listens is refused',
         'no byte arrives between the end of flush_recv and the send (same virtual instant)',
         'the virtual clock of vlib.sched (one tick per clock read); clock slack of 300 us per step in the time clauses',
         'instrumentation from outside: lock proxies (_lock, accessLock), time proxy of frappy.io, wrappers of check_connection/doPoll/'
@@ -53,8 +62,9 @@ META = {
         'callbacks at that event); the accesses of `_last_error` are scheduling points only in the `yattr` scenario, which is judged by the monitors only',
     ],
     'modelled_not_verified': [
-        'sockets / serial lines / select (AsynTcp, AsynSerial)',
-        'wait_before with an end-of-line inside a command (several sends per communicate)',
+        'kernel sockets / select; serial lines (AsynSerial) - AsynTcp itself runs in every scenario',
+        'a command of several lines with wait_before (several sends per communicate): glue model commPlan + monitors, not the transaction model; '
+        'send_plan_one_line is stated for terminators of one byte (a terminator that overlaps itself makes lines ambiguous)',
         'write_is_connected from a client, the generic read wrapper of modulebase (only its late announce of is_connected - discarded since the repair of F39 - is modelled)',
         'the real poll thread (only polling_resumes is judged on it)',
         'with identification: state_visible_run, callbacks_once_run are replaced by closed_visible_run / callbacks_once_ident_run; replies of variable length: reply_own_ret',
@@ -62,6 +72,11 @@ META = {
         'modelled on the side of the connecting thread (event `drop`), not observed in the runs',
     ],
     'assumptions': [
+        'wait_before_honoured: before every send the sending caller has slept >= wait_before (a slp of that caller, begun >= wait_before earlier, '
+        'no send of the caller in between) and the send carries exactly one line (send terminator at its end and nowhere before)',
+        'stale_discarded / reply_pairing for a command of several lines: the command is ONE command, sent from its first line on (the receive buffer is '
+        'flushed once, before the first line - io.py "read garbage only once"); what arrives after the first line went out counts as fresh',
+        'reconnect_same_target: every connect attempt of a run goes to the address (host, port) of the first one',
         'reply_pairing: in the window of a command the device sends nothing but its answer to that command (a late reply that arrives after '
         'the next send is indistinguishable from a reply and outside the statement)',
         'fails_within_timeout: bound = max(start of the read + timeout, last byte of the device in the window) + one recv period + delay + wait_before, '
@@ -227,13 +242,19 @@ def run_case(case, policy=None, max_steps=20000):
     bytes_mode = case['mode'] == 'bytes'
     kinds = {}
     in_ident = set()
+    net = fakes.Net(s, log)
+    _tcp, restore_tcp = fakes.tcp_under_test(log, s)
     with s.patched(frappy.io, threading=s.threading, time=tproxy), \
             s.patched(frappy.modulebase, threading=s.threading, time=s.time, mkthread=s.mkthread), \
-            s.patched(frappy.lib.asynconn, time=s.time):
+            s.patched(frappy.lib.asynconn, time=s.time, socket=net.socket, select=net.select):
         dev = fakes.Device(s, log, 'dev', case['device'])
+        net.listen(dev)
         dev.send_kind = lambda: 'isend' if log.who() in in_ident else 'send'
         try:
             cls = frappy.io.BytesIO if bytes_mode else frappy.io.StringIO
+            uri, defaults = io_address(case, dev)
+            if defaults is not None:    # the port comes from the IO class (a class of its own per run)
+                cls = type('WithDefaults', (cls,), {'default_settings': defaults})
             if bytes_mode and case.get('varlen'):
                 class VarLen(cls):
                     """replies of variable length, the documented way: a header of fixed length tells how many bytes
@@ -249,9 +270,11 @@ def run_case(case, policy=None, max_steps=20000):
                 cls = VarLen
             if case.get('yattr'):
                 cls = type('Instrumented', (cls,), {a: YieldingAttr(a, log, getattr(cls, a, None)) for a in case['yattr']})
-            cfg = {'cls': cls, 'description': 'x', 'uri': dev.uri}
+            cfg = {'cls': cls, 'description': 'x', 'uri': uri}
             for k, v in case['io'].items():
                 cfg[k] = {'value': v}
+            if case.get('eol') and not bytes_mode:     # [receive, send] terminators (a tuple end_of_line) or one string
+                cfg['end_of_line'] = tuple(case['eol']) if isinstance(case['eol'], list) else case['eol']
             if case.get('ident'):      # [[command, prefix of the expected reply, length of the reply (bytes mode)], ...]
                 if bytes_mode:
                     cfg['identification'] = [(' '.join(c), ' '.join(list(pfx) + ['??'] * (n - len(pfx))))
@@ -328,6 +351,8 @@ def run_case(case, policy=None, max_steps=20000):
                     if bytes_mode:
                         return [io.communicate(op[1].encode('latin-1'), op[2]).decode('latin-1')]
                     return [io.communicate(op[1])]
+                if k == 'commx':     # a command of several lines (commands without reply joined with a query)
+                    return [io.communicate(eols(case)[1].join(op[1]))]
                 if k == 'write':
                     io.writeline(op[1])
                     return []
@@ -386,11 +411,35 @@ def run_case(case, policy=None, max_steps=20000):
             out = s.run()
         finally:
             dev.unregister()
+            restore_tcp()
     events = log.sorted()
     for ev in events:
         if ev['e'] == 'connect':
             ev['od'] = kinds_at(events, ev) not in ('poll', None)    # None: the real poll thread
     return s, {'events': events, 'sched': out}
+
+
+ADDR_FORMS = ['port', 'bare', 'default', 'default_bare', 'secop']
+
+
+def io_address(case, dev):
+    """(uri, default_settings of the IO class or None) for the scenario's way of giving the device's address:
+    in the uri (with or without scheme), or the port by the IO class' default_settings, or nowhere (SECoP default port)"""
+    form = (case.get('addr') or 'port')
+    if dev is None:
+        import types
+        dev = types.SimpleNamespace(host='dev', port=int(case['device'].get('port', 4001)))
+    if form == 'port':
+        return f'tcp://{dev.host}:{dev.port}', None
+    if form == 'bare':
+        return f'{dev.host}:{dev.port}', None
+    if form == 'default':
+        return f'tcp://{dev.host}', {'port': dev.port, 'baudrate': 9600}
+    if form == 'default_bare':
+        return dev.host, {'port': dev.port}
+    if form == 'secop':         # the device script has to say 'port': SECoP_DEFAULT_PORT
+        return dev.host, None
+    raise ValueError(form)
 
 
 def kinds_at(events, ev):
@@ -424,22 +473,32 @@ def us(x):
     return int(round(x * 1e6))
 
 
+def eols(case):
+    """(receive, send) terminators of the scenario: case['eol'] is one string or [receive, send] (a tuple end_of_line)"""
+    if case['mode'] == 'bytes':
+        return '', ''
+    e = case.get('eol') or '\n'
+    return (e[0], e[-1]) if isinstance(e, list) else (e, e)
+
+
 def model_cfg(case):
     io = case['io']
     from frappy.lib.asynconn import AsynConn
     bm = case['mode'] == 'bytes'
-    eol = '' if bm else case.get('eol', '\n')
-    return {'bytes': bm, 'eol': eol,
+    eol, eol_w = eols(case)
+    return {'bytes': bm, 'eol': eol, 'eol_w': eol_w,
             'timeout': us(io.get('timeout', 2)), 'wait_before': us(io.get('wait_before', 0)),
             'interval': us(io.get('pollinterval', 10)), 'gran': us(AsynConn.timeout), 'slack': SLACK,
-            'ident': [[c + eol, n if bm else 0, pfx] for c, pfx, n in case.get('ident') or ()],
+            'ident': [[c + eol_w, n if bm else 0, pfx] for c, pfx, n in case.get('ident') or ()],
             'retry_first': case.get('ident_retry') is not False}
 
 
 def model_reqs(case, op):
     bm = case['mode'] == 'bytes'
-    eol = '' if bm else case.get('eol', '\n')
+    eol = eols(case)[1]         # what is sent ends with the SEND terminator
     k = op[0]
+    if k == 'commx':            # ONE request (the Lean side reads it line by line where a pause is owed before every line)
+        return [[eol.join(op[1]) + eol, True, 0, 0]]
     if k == 'comm':
         return [[op[1] + eol, True, op[2] if bm else 0, 0]]
     if k == 'write':
@@ -458,7 +517,7 @@ def model_events(case, events):
         e, t = ev['e'], ev['t']
         c = who_id(ev['who'])
         if e == 'call':
-            out.append([t, 'call', c, ev['op'][0], model_reqs(case, ev['op'])])
+            out.append([t, 'call', c, 'comm' if ev['op'][0] == 'commx' else ev['op'][0], model_reqs(case, ev['op'])])
         elif e == 'ret':
             r = ev['r']
             out.append([t, 'ret', c, r if isinstance(r, list) else ('err' if r == 'err' else 'crash')])
@@ -496,10 +555,41 @@ def model_events(case, events):
 def requests_for(case, events):
     cbs = list(range(len(case.get('callbacks') or ())))
     base = {'p': 'C16', 'cfg': model_cfg(case), 'cbs': cbs, 'events': model_events(case, events)}
-    judge = dict(base, k='judge')
+    judge = dict(base, k='judge', targets=targets_of(events))
     if case.get('realpoll'):
         judge.update(pollname=0, mods=[0], within=us(1.0))     # anchor: the kept callback cb0 of the same callCallbacks pass
-    return dict(base, k='replay'), judge
+    uri, defaults = io_address(case, None)
+    tg = {'p': 'C16', 'k': 'targets', 'n': len(judge['targets'])}
+    if (case.get('addr') or 'port') in ('port', 'bare'):       # the uri names the port
+        tg['uri_port'] = int(case['device'].get('port', 4001))
+    if defaults and 'port' in defaults:
+        tg['default_port'] = defaults['port']
+    return dict(base, k='replay'), judge, tg
+
+
+def targets_of(events):
+    """the address of every connect attempt, canonical: host 0 = the scenario's device host, 1 = any other"""
+    return [[0 if ev['target']['host'] == 'dev' else 1, ev['target']['port']] for ev in events if ev['e'] == 'connect']
+
+
+def plan_of(events, who='c0'):
+    """what the first call of `who` did between its start and its return: pauses, the flush, the sends"""
+    out = []
+    on = False
+    for ev in events:
+        if ev['who'] != who:
+            continue
+        if ev['e'] == 'call':
+            on = True
+        elif ev['e'] == 'ret':
+            break
+        elif on and ev['e'] == 'slp':
+            out.append(['slp', ev['d']])
+        elif on and ev['e'] == 'flush':
+            out.append(['flush'])
+        elif on and ev['e'] == 'send':
+            out.append(['send', ev['data']])
+    return out
 
 
 # ----------------------------------------------------------------------------------------
@@ -552,7 +642,8 @@ CMDS = ['A', 'B', 'C', 'D', 'E']
 IDENT_CMDS = ['ID', 'IV']
 
 
-def gen_device(rng, bm, faults, varlen=False, ident=None):
+def gen_device(rng, bm, faults, varlen=False, ident=None, eol=None):
+    eol_r, eol_w = (eol[0], eol[-1]) if isinstance(eol, list) else (eol or '\n', eol or '\n')
     cmds = {}
     for c in CMDS:
         delay = rng.choice([0, 0, 0.1, 0.3, 0.7])
@@ -570,13 +661,19 @@ def gen_device(rng, bm, faults, varlen=False, ident=None):
         r = rng.random()        # mostly the expected device; sometimes garbled once, another device, or no answer at all
         reply = good if r < 0.6 else [bad, good] if r < 0.75 else [good, bad, good] if r < 0.85 else bad if r < 0.93 else None
         cmds[c] = {'reply': reply, 'delay': rng.choice([0, 0, 0.1, 0.4]), 'chunks': [rng.randint(1, 2) for _ in range(rng.choice([0, 0, 1]))]}
-    dev = {'eol': '' if bm else '\n', 'cmds': cmds, 'default': None}
+    dev = {'eol': '' if bm else eol_r, 'cmds': cmds, 'default': None}
+    if not bm and eol_w != eol_r:
+        dev['eol_in'] = eol_w
+    if 'surplus' in faults and not bm:      # a further line in the SAME chunk as a reply (a late reply, an unsolicited message):
+        for c in rng.sample(CMDS, rng.randint(1, 3)):       # it stays in the receive buffer, nothing is left on the socket
+            cmds[c]['reply'] = cmds[c]['reply'] + eol_r + rng.choice(['late{n}', 'x', ''])
+            cmds[c]['chunks'] = rng.choice([[], [], [2]])
     if 'late' in faults:
         cmds[rng.choice(CMDS)]['delay'] = rng.choice([2.2, 2.6, 3.5])
     if 'silence' in faults:
         cmds[rng.choice(CMDS)]['reply'] = None
     if 'garbage' in faults:
-        dev['unsolicited'] = [[round(rng.uniform(0, 6), 2), rng.choice(['junk', '?', 'zz' * 3]) + ('' if bm else rng.choice(['\n', '']))]
+        dev['unsolicited'] = [[round(rng.uniform(0, 6), 2), rng.choice(['junk', '?', 'zz' * 3]) + ('' if bm else rng.choice([eol_r, '']))]
                               for _ in range(rng.randint(1, 3))]
     if 'close' in faults:
         if rng.random() < 0.35:
@@ -592,7 +689,7 @@ def gen_device(rng, bm, faults, varlen=False, ident=None):
 GRID = [0.0, 0.0, 1.0, 2.1, 3.2, 3.2, 3.5, 5.3, 6.4, 6.4, 7.15, 9.6]     # no two of them exactly a reconnect interval apart
 
 
-def gen_ops(rng, bm, n, varlen=False, aligned=False):
+def gen_ops(rng, bm, n, varlen=False, aligned=False, lines=False):
     ops = []
     tgrid = sorted(rng.sample(range(len(GRID)), min(n, len(GRID))))
     for j in range(n):
@@ -602,7 +699,9 @@ def gen_ops(rng, bm, n, varlen=False, aligned=False):
             ops.append(['sleep', rng.choice([0.1, 0.5, 1.0, 2.5, 3.1])])
         r = rng.random()
         c = rng.choice(CMDS)
-        if r < 0.5:
+        if lines and r < 0.3:      # commands without reply joined with a query: one command of several lines
+            ops.append(['commx', ['W'] * rng.randint(1, 2) + [c]])
+        elif r < 0.5:
             ops.append(['comm', c, 2 if varlen else 4] if bm else ['comm', c])
         elif r < 0.65 and not bm:
             ops.append(['write', 'W'])
@@ -620,7 +719,7 @@ def gen_ops(rng, bm, n, varlen=False, aligned=False):
 def gen_case(rng):
     bm = rng.random() < 0.4
     faults = set()
-    for f, p in (('late', 0.25), ('silence', 0.2), ('garbage', 0.3), ('close', 0.45)):
+    for f, p in (('late', 0.25), ('silence', 0.2), ('garbage', 0.3), ('close', 0.45), ('surplus', 0.2)):
         if rng.random() < p:
             faults.add(f)
     if 'close' in faults and rng.random() < 0.5:
@@ -631,13 +730,24 @@ def gen_case(rng):
     ident = None
     if rng.random() < 0.35:
         ident = [[c, 'id' if c == 'ID' else 'v', 4] for c in IDENT_CMDS[:rng.choice([1, 1, 2])]]
+    eol = None if bm else rng.choice([None, None, None, '\r', ['\n', '\r'], ['\r\n', '\n'], ['\n', '\r\n']])
+    lines = not bm and not ident and rng.random() < 0.25
     case = {'mode': 'bytes' if bm else 'string',
-            'io': {'timeout': rng.choice([2, 2, 1.5]), 'wait_before': rng.choice([0, 0, 0.05]), 'pollinterval': interval},
-            'device': gen_device(rng, bm, faults, varlen, ident),
-            'callers': [gen_ops(rng, bm, rng.randint(1, 3), varlen, aligned) for _ in range(rng.randint(2, 4))],
+            'io': {'timeout': rng.choice([2, 2, 1.5]), 'wait_before': rng.choice([0, 0, 0.05, 0.2] if lines else [0, 0, 0.05]),
+                   'pollinterval': interval},
+            'device': gen_device(rng, bm, faults, varlen, ident, eol),
+            'callers': [gen_ops(rng, bm, rng.randint(1, 3), varlen, aligned, lines) for _ in range(rng.randint(2, 4))],
             'poller': {'interval': interval, 'count': rng.randint(1, 3)} if rng.random() < 0.6 else None,
             'callbacks': rng.choice([[], ['cb0'], ['cb0', 'once1'], ['once0', 'cb1', 'cb2']]),
             'faults': sorted(faults)}
+    if eol:
+        case['eol'] = eol
+    case['addr'] = rng.choice(ADDR_FORMS)       # where the address of the device comes from (uri / class defaults / SECoP default)
+    if case['addr'] == 'secop':
+        from frappy.lib import SECoP_DEFAULT_PORT
+        case['device']['port'] = SECoP_DEFAULT_PORT
+    elif rng.random() < 0.5:
+        case['device']['port'] = rng.choice([4001, 7777, 10767, 65535])
     if varlen:
         case['varlen'] = True
     if ident:
@@ -721,12 +831,47 @@ def catalogue():
                 'callers': [[['comm', 'A', 4], ['until', 3.5], ['comm', 'B', 4], ['until', 7.0], ['comm', 'C', 4], ['until', 10.5], ['comm', 'D', 4]],
                             [['until', 3.5], ['comm', 'E', 4]]],
                 'poller': {'interval': 3, 'count': 3}, 'callbacks': ['cb0']})
+    # a surplus line in the SAME chunk as a reply stays in the receive buffer: discarded before the next command
+    cat.append({'mode': 'string', 'io': io,
+                'device': {'default': dflt, 'cmds': {'A': {'reply': 'a{n}\nlate{n}', 'delay': 0.1}, 'B': {'reply': 'b{n}\nx\ny', 'delay': 0.1}}},
+                'callers': [[['comm', 'A'], ['comm', 'C'], ['comm', 'B'], ['sleep', 0.5], ['multi', [['A', True, 0], ['D', True, 0]]]]],
+                'callbacks': []})
+    # the port comes from the IO class (uri without port): disconnect, reconnects by the poller and on demand
+    cat.append({'mode': 'string', 'io': io, 'addr': 'default', 'device': {'default': dflt, 'port': 7777, 'close': {'at': 1.0}},
+                'callers': [[['comm', 'A'], ['sleep', 1.5], ['comm', 'B'], ['until', 3.5], ['comm', 'C'], ['until', 7.0], ['comm', 'D']]],
+                'poller': {'interval': 3, 'count': 2}, 'callbacks': ['cb0']})
+    cat.append({'mode': 'bytes', 'io': io, 'addr': 'default_bare',
+                'device': {'eol': '', 'default': {'reply': 'r{n}xy', 'delay': 0.1}, 'close': {'send': 1, 'phase': 'after_cmd'}, 'refuse': [1]},
+                'callers': [[['comm', 'A', 4], ['comm', 'B', 4], ['until', 3.5], ['comm', 'C', 4], ['until', 7.0], ['comm', 'D', 4]]],
+                'poller': {'interval': 3, 'count': 2}, 'callbacks': ['cb0']})
+    # distinct terminators for receiving and sending, wait_before, a command of several lines against other callers
+    cat.append({'mode': 'string', 'io': dict(io, wait_before=0.2), 'eol': ['\n', '\r'],
+                'device': {'eol': '\n', 'eol_in': '\r', 'default': dflt, 'cmds': {'W': {'reply': None}}},
+                'callers': [[['commx', ['W', 'A']], ['commx', ['W', 'W', 'B']]], [['comm', 'C'], ['write', 'W']]],
+                'callbacks': []})
     return cat
 
 
+def has_lines(case):
+    return any(op[0] == 'commx' for ops in case['callers'] for op in ops)
+
+
 def modelled(case):
-    """scenario classes the transaction model covers (the others are judged by the monitors only)"""
-    return not case.get('yattr')
+    """scenario classes the transaction model covers (the others are judged by the monitors only): no scheduling points at
+    attribute accesses; no command that goes out as several sends (the glue model `commPlan` covers those)"""
+    return not case.get('yattr') and not (has_lines(case) and case['io'].get('wait_before') and eols(case)[1])
+
+
+def gen_plan_case(rng):
+    """one caller, one communicate: (wait_before, terminators, command) -> what goes on the wire"""
+    eol_w = rng.choice(['\r', '\r', '\n', '\r\n', ';', 'ab', 'aab'])      # (no terminator that overlaps itself: 'aa' + 'a' is ambiguous)
+    eol_r = rng.choice(['\n', '\n', eol_w, '\r', ';'])
+    alphabet = sorted(set(eol_w + eol_r)) + ['x', 'Q']
+    lines = [''.join(rng.choice(alphabet) for _ in range(rng.choice([0, 1, 1, 2, 3]))) for _ in range(rng.randint(1, 4))]
+    return {'mode': 'string', 'io': {'timeout': 1.2, 'wait_before': rng.choice([0, 0.05, 0.2, 0.2]), 'pollinterval': 3},
+            'eol': [eol_r, eol_w] if rng.random() < 0.8 or eol_r != eol_w else eol_w,
+            'device': {'eol': eol_r, 'eol_in': eol_w, 'default': {'reply': 'ok{n}', 'delay': 0.05}},
+            'callers': [[['commx', lines]]], 'callbacks': [], 'addr': rng.choice(ADDR_FORMS[:4]), 'plan': True}
 
 
 def explore_levels(make_run, max_preemptions, max_runs, rng):
@@ -767,7 +912,8 @@ def realpoll_case(rng):
 
 # ----------------------------------------------------------------------------------------
 CLAUSES = ['multicomm_atomic', 'exchange_atomic', 'delays_honoured', 'transaction_protected', 'stale_discarded', 'reply_pairing', 'fails_within_timeout',
-           'state_visible', 'closed_visible', 'state_not_overwritten', 'reconnect_rate_limited', 'attempts_atomic', 'callbacks_once', 'polling_resumes']
+           'state_visible', 'closed_visible', 'state_not_overwritten', 'reconnect_rate_limited', 'attempts_atomic', 'callbacks_once', 'polling_resumes',
+           'wait_before_honoured', 'command_intact', 'reconnect_same_target']
 
 
 def canon_events(events):
@@ -842,6 +988,10 @@ def run(ctx):
         for _ in range(2):
             s, out = one(case, RandomPolicy(rng, rng.choice([0.1, 0.3, 0.6])))
             runs.append((case, [c[1] for c in s.choices], out))
+    for _ in range(ctx.budget(120, 1500)):     # glue: what one communicate puts on the wire (model: commPlan)
+        case = gen_plan_case(rng)
+        s, out = one(case, RandomPolicy(rng, 0.0))
+        runs.append((case, [c[1] for c in s.choices], out))
     for _ in range(ctx.budget(12, 300)):
         case = realpoll_case(rng)
         s, out = one(case, RandomPolicy(rng, rng.choice([0.0, 0.2, 0.5])))
@@ -850,13 +1000,27 @@ def run(ctx):
     reqs = []
     for case, choices, out in runs:
         reqs.extend(requests_for(case, out['events']))
+        reqs.append(plan_request(case))
     answers = ctx.driver.batch(reqs)
     seen_sigs = {}
     for j, (case, choices, out) in enumerate(runs):
-        rep, judge = answers[2 * j], answers[2 * j + 1]
-        if 'driver_error' in rep or 'driver_error' in judge:
-            raise RuntimeError(f'driver error: {rep} {judge}')
+        rep, judge, tgt, plan = answers[4 * j: 4 * j + 4]
+        for a in (rep, judge, tgt, plan):
+            if 'driver_error' in a:
+                raise RuntimeError(f'driver error: {a}')
         evs = out['events']
+        # glue code against its transcriptions: where the connects went to, what a communicate put on the wire
+        ports = [t[1] for t in judge_targets(evs)]
+        res.count('addr.' + (case.get('addr') or 'port'))
+        res.count('connects=%d' % min(len(ports), 4))
+        if ctx.model_ok and tgt != ports:
+            res.disagreements.append({'case': {'kind': 'scenario', 'case': case, 'choices': choices},
+                                      'model': {'targets': tgt}, 'impl': {'targets': ports}})
+        if case.get('plan'):
+            res.count('plan.sends=%d' % sum(1 for x in plan if x[0] == 'send'))
+            if ctx.model_ok and plan != plan_of(evs):
+                res.disagreements.append({'case': {'kind': 'scenario', 'case': case, 'choices': choices},
+                                          'model': {'plan': plan}, 'impl': {'plan': plan_of(evs)}})
         res.evaluations += 1
         res.traces += 1
         kinds = {e['e'] for e in evs}
@@ -895,9 +1059,11 @@ def run(ctx):
                 seen_sigs[sig] = 1
                 res.violations.append({'sig': sig, 'what': f'run does not terminate normally: {out["sched"]}', 'case': payload})
             continue
-        for f in ('ident', 'varlen', 'aligned'):
+        for f in ('ident', 'varlen', 'aligned', 'eol', 'plan'):
             if case.get(f):
                 res.count('script.' + f)
+        if has_lines(case):
+            res.count('script.lines')
         if ctx.model_ok and modelled(case) and not rep['accepted']:
             bad = evs[rep['at']] if rep['at'] < len(evs) else None
             res.disagreements.append({'case': payload, 'model': {k: rep[k] for k in ('at', 'pc', 'expected_result', 'state')},
@@ -915,10 +1081,23 @@ def run(ctx):
     return res
 
 
+def judge_targets(events):
+    return targets_of(events)
+
+
+def plan_request(case):
+    """the model's version of what the first call of caller 0 puts on the wire (asked for `plan` scenarios only)"""
+    if not case.get('plan'):
+        return {'p': 'C16', 'k': 'plan', 'wait_before': 0, 'eol_w': '', 'cmd': ''}
+    eol_w = eols(case)[1]
+    return {'p': 'C16', 'k': 'plan', 'wait_before': us(case['io'].get('wait_before', 0)), 'eol_w': eol_w,
+            'cmd': eol_w.join(case['callers'][0][0][1])}
+
+
 def judge_one(ctx, case, choices):
     from vlib.sched import ReplayThenDefault
     s, out = run_case(case, ReplayThenDefault(choices))
-    rep, judge = ctx.driver.batch(list(requests_for(case, out['events'])))
+    rep, judge, tgt = ctx.driver.batch(list(requests_for(case, out['events'])))
     return s, out, rep, judge
 
 
@@ -985,7 +1164,12 @@ def replay(ctx, rp):
     for ev in out['events']:
         print('  ', {k: v for k, v in ev.items() if k not in ('seq', 'tf')})
     print('sched :', out['sched'])
-    print('model :', rep if not rep.get('accepted') else 'accepts the event sequence')
+    print('connect targets (host 0 = the device\'s host):', targets_of(out['events']))
+    if c['case'].get('plan'):
+        print('on the wire :', plan_of(out['events']))
+        print('model plan  :', ctx.driver.batch([plan_request(c['case'])])[0])
+    print('model :', 'not replayed (a command of several sends / attribute-level scheduling)' if not modelled(c['case']) else
+          rep if not rep.get('accepted') else 'accepts the event sequence')
     print('judge :', judge)
     bad = [k for k in CLAUSES if not judge.get(k, True)]
     if out['sched']['deadlock'] or out['sched']['aborted'] or out['sched']['errors']:
